@@ -746,3 +746,95 @@ def rule_list_helpers(ctx: Ctx, rule: str = "list-helpers") -> None:
             ctx.ok(rule, fi.key, construct)
         else:
             ctx.violation(rule, fi.key, construct, "computes a different predicate", where=fi.where)
+
+
+def rule_contract_factories(ctx: Ctx, rule: str = "through-constructor") -> None:
+    """C06(b): every contract-returning method ends in the validating constructor (directly or through another
+    contract-returning method), so the run-time validation is always reached."""
+    prog = ctx.prog
+    targets = []
+    for cname in ("IoContract", "PolyhedralIoContract", "IoContractCompound", "PolyhedralIoContractCompound"):
+        ci = prog.cls(cname)
+        for mname, fi in sorted(ci.methods.items()):
+            if mname.startswith("__") or fi.node.returns is None:
+                continue
+            t = norm(fi.node.returns).replace("'", "")
+            if any(x in t for x in ("IoContract", "IoContract_t", "IoContractCompound")) and "bool" not in t:
+                targets.append(fi)
+    n = 0
+    names_ok = {f.name for f in targets}
+
+    def producer(e: ast.AST, fi, seen: Set[str]) -> Optional[str]:
+        """None if e certainly is a freshly validated contract (or tuple starting with one); else a reason."""
+        if isinstance(e, ast.Tuple) and e.elts:
+            return producer(e.elts[0], fi, seen)
+        if isinstance(e, ast.Call):
+            f = e.func
+            if isinstance(f, ast.Call) and isinstance(f.func, ast.Name) and f.func.id == "type":
+                return None
+            if isinstance(f, ast.Name) and f.id in prog.classes and "IoContract" in f.id:
+                return None
+            if isinstance(f, ast.Attribute) and f.attr in names_ok:
+                return None
+            return "call of %s" % norm(f)
+        if isinstance(e, ast.Name):
+            if e.id in seen:
+                return None
+            seen.add(e.id)
+            defs = []
+            for node in ast.walk(fi.node):
+                if isinstance(node, ast.Assign):
+                    for t in node.targets:
+                        if isinstance(t, ast.Name) and t.id == e.id:
+                            defs.append(node.value)
+                        if isinstance(t, ast.Tuple) and t.elts and isinstance(t.elts[0], ast.Name) and t.elts[0].id == e.id:
+                            defs.append(node.value)
+            if not defs:
+                return "name %s is not bound to a constructed contract" % e.id
+            for d in defs:
+                r = producer(d, fi, seen)
+                if r:
+                    return r
+            return None
+        return "expression %s" % norm(e)[:50]
+
+    for fi in targets:
+        for node in ast.walk(fi.node):
+            if isinstance(node, ast.Return) and node.value is not None:
+                n += 1
+                construct = "%s returns a contract built by the validating constructor" % fi.key
+                r = producer(node.value, fi, set())
+                if r is None:
+                    ctx.ok(rule, fi.key, construct)
+                else:
+                    ctx.violation(rule, fi.key, construct, "returns %s (%s): the constructor's checks are bypassed" % (norm(node.value)[:60], r), where="%s:%d" % (fi.module.relpath, node.lineno))
+    ctx.floor("contract-returning return statements", n, 12)
+    # the validated fields are written only by the constructor (and the documented in-place simplify)
+    fields = {"a", "g", "inputvars", "outputvars"}
+    contract_classes = {"IoContract", "PolyhedralIoContract", "IoContractCompound", "PolyhedralIoContractCompound"}
+    for fi in prog.all_functions():
+        if isinstance(fi.node, ast.Lambda):
+            continue
+        for node in ast.walk(fi.node):
+            tgts = []
+            if isinstance(node, ast.Assign):
+                tgts = node.targets
+            elif isinstance(node, (ast.AugAssign, ast.AnnAssign)):
+                tgts = [node.target]
+            flat = []
+            for t in tgts:
+                flat += list(t.elts) if isinstance(t, (ast.Tuple, ast.List)) else [t]
+            for t in flat:
+                if isinstance(t, ast.Attribute) and t.attr in fields:
+                    in_ctor = fi.cls is not None and fi.cls.name in contract_classes and fi.name == "__init__" and isinstance(t.value, ast.Name) and t.value.id == fi.params[0]
+                    in_simplify = fi.key == "IoContract.simplify" and t.attr == "g"
+                    other_class = fi.cls is not None and fi.cls.name not in contract_classes and isinstance(t.value, ast.Name) and t.value.id == fi.params[0]
+                    if in_ctor or in_simplify or other_class:
+                        continue
+                    ctx.violation(
+                        rule,
+                        fi.key,
+                        "%s writes contract field .%s outside the constructor" % (fi.key, t.attr),
+                        "`%s` sets a validated field directly: the resulting contract never passed the constructor's well-formedness checks" % norm(node)[:80],
+                        where="%s:%d" % (fi.module.relpath, node.lineno),
+                    )
